@@ -253,13 +253,29 @@ def nonce_bytes(kind, text):
     return None
 
 
+_AGAIN_TEXTS = ("plain", "", "00", "ME", "YQ==")
+
+
 def _compile(prog, cfg):
     return drive.compile_recipe(prog, cfg, "gput")
 
 
-def check_variant(base_prog, base_text, ann_prog, cfg, out, meta, nonce=None):
+def _compile_again(prog, cfg):
+    """build ONCE, compile the same objects twice (the same tree reached by two compilations, as a helper shared by
+    an approval and a clear-state program is): the text of the SECOND compilation"""
+    try:
+        expr = rb.build(prog, cfg, "gput")
+        rb.compile_cfg(expr, cfg)
+        return "ok", rb.compile_cfg(expr, cfg)
+    except drive.PT_ERRORS as e:
+        return "pterr", e
+    except Exception as e:
+        return "crash", e
+
+
+def check_variant(base_prog, base_text, ann_prog, cfg, out, meta, nonce=None, again=False):
     cnt, oc = out["counters"], out["outcomes"]
-    st, text = _compile(ann_prog, cfg)
+    st, text = _compile_again(ann_prog, cfg) if again else _compile(ann_prog, cfg)
     oc[meta["kind"] + ":" + st] = oc.get(meta["kind"] + ":" + st, 0) + 1
     if st == "crash":
         out["violations"].append({"driver": meta["kind"], "size": len(meta.get("text", "")),
@@ -296,6 +312,7 @@ def _worker(items, base):
             st, base_text = _compile(prog, cfg)
             if st != "ok":
                 continue
+            base_again = None
             for kind, text, path in variants:
                 meta = {"kind": kind, "text": text, "path": list(path) if path is not None else None}
                 if path is not None:
@@ -325,6 +342,13 @@ def _worker(items, base):
                     ann = copy.deepcopy(prog)
                     ann["main"] = wrap_at(prog["main"], path, annotate(kind, text))
                     check_variant(prog, base_text, ann, cfg, out, meta, nonce=nb if kind.startswith("nonce") else None)
+                    if text in _AGAIN_TEXTS:
+                        # the annotated tree compiled a second time (same objects) against the base compiled twice
+                        if base_again is None:
+                            base_again = _compile_again(prog, cfg)
+                        if base_again[0] == "ok":
+                            check_variant(prog, base_again[1], ann, cfg, out, dict(meta, kind=kind, again=True),
+                                          nonce=nb if kind.startswith("nonce") else None, again=True)
             out["counters"]["states"] = out["counters"].get("states", 0) + len(variants)
             out["counters"]["transitions"] = out["counters"].get("transitions", 0) + len(variants)
     if items and base % 37 == 0:
@@ -451,7 +475,9 @@ def replay(case):
             nb = nonce_bytes(meta["kind"], meta["text"])
         except Exception:
             nb = None
-    check_variant(case["base"], base_text, case["recipe"], cfg, out, meta, nonce=nb)
+    if meta.get("again"):
+        st, base_text = _compile_again(case["base"], cfg)
+    check_variant(case["base"], base_text, case["recipe"], cfg, out, meta, nonce=nb, again=bool(meta.get("again")))
     for v in out["violations"]:
         print("still violates:", v["title"])
     return bool(out["violations"])
